@@ -25,6 +25,15 @@ func (x *Ctx) raw(line, obs string, force bool) {
 	}
 }
 
+// rawPair: like raw, with separate observations for the two packages
+func (x *Ctx) rawPair(line, str, byt string) {
+	x.st.Evaluations++
+	if x.st.CasesWritten < x.limit {
+		x.st.CasesWritten++
+		fmt.Fprintf(x.out, "%s\t=\t%s\t%s\t\n", line, str, byt)
+	}
+}
+
 func (x *Ctx) tableCase(r rune, force bool) {
 	x.raw(fmt.Sprintf("t.case_fold\t%d", r), itoa(int(strcase.VerifCaseFold(r))), force)
 	fm, ok := strcase.VerifFoldMap(r)
